@@ -159,7 +159,7 @@ PROPS = {
             "--ttl/--ipproto/--type/--code are uint8 flags and --iplen a uint16 flag (pflag Uint8Var/Uint16Var), --ipflags < 8 by C05_cli_ipflags over C18_ipflags_exact",
             "a UDP checksum that computes to 0 is transmitted as 0 (gopacket does not substitute 0xffff as RFC 768 asks); the RFC 1071 sum still verifies, a receiver reads 0 as 'no checksum'",
         ],
-        "level_text": "Lean theorems C05_tcp / C05_udp / C05_icmp / C05_arp: for every well-formed request, all 2^9 TCP flag sets, every TTL / IP flags / protocol / type / code, every payload byte string up to the IPv4 maximum (induction-free RFC 1071 argument over the byte list, odd lengths included), every value of the random draws and both link modes, the frame read back by an independent RFC 791/793/768/792/826 offset reader carries exactly the requested MACs, addresses, port, flags, TTL, IP flags, type/code and payload; IPv4 header checksum and TCP/UDP (pseudo-header) / ICMP checksums verify; total length, IHL, data offset, UDP length, Ethernet padding are consistent, and --iplen / --ipproto appear verbatim with every other field unchanged (UDP length included, D14 fixed); IP id in 1..65535, source port in 32768..60999 with the draw ranges regenerated from the source (C05_draws). C05_vpn_same_datagram*: the VPN frame is the Ethernet frame minus header and padding. C05_refused_*: non-IPv4 addresses / bad MACs give an error, never a frame. CLI side: C05_cli_tcp_flags / C05_tcp_cli (the flag set the command's filler gets from the accepted --flags names, through the regenerated option table, is the set the names denote and is what the header carries), C05_cli_ipflags (parsed --ipflags fit the field) composed with C18's parser theorems. Tied to the code by running the real Fill of all four fillers (built through the commands' own option wiring) into a dirty buffer and comparing every byte with the model, exhaustively over 2^9 flag sets x 2 link modes; the parse component drives flag names through the real filler (ptcpflags).",
+        "level_text": "Lean theorems C05_tcp / C05_udp / C05_icmp / C05_arp: for every well-formed request, all 2^9 TCP flag sets, every TTL / IP flags / protocol / type / code, every payload byte string up to the IPv4 maximum (induction-free RFC 1071 argument over the byte list, odd lengths included), every value of the random draws and both link modes, the frame read back by an independent RFC 791/793/768/792/826 offset reader carries exactly the requested MACs, addresses, port, flags, TTL, IP flags, type/code and payload; IPv4 header checksum and TCP/UDP (pseudo-header) / ICMP checksums verify; total length, IHL, data offset, UDP length, Ethernet padding are consistent, and --iplen / --ipproto appear verbatim with every other field unchanged (UDP length included, D14 fixed); IP id in 1..65535, source port in 32768..60999 with the draw ranges regenerated from the source (C05_draws). C05_vpn_same_datagram*: the VPN frame is the Ethernet frame minus header and padding. C05_refused_*: non-IPv4 addresses / bad MACs give an error, never a frame. CLI side: C05_cli_tcp_flags / C05_tcp_cli (the flag set the command's filler gets from the accepted --flags names, through the regenerated option table, is the set the names denote and is what the header carries), C05_subcommand_flags (tcp syn/fin/null/xmas give SYN / FIN / none / FIN+PSH+URG, over the option lists regenerated from command/tcp_*.go), C05_cli_ipflags (parsed --ipflags fit the field) composed with C18's parser theorems. Tied to the code by running the real Fill of all four fillers (built through the commands' own option wiring) into a dirty buffer and comparing every byte with the model, exhaustively over 2^9 flag sets x 2 link modes, a corner grid of payload lengths x option extremes, the IPv4 maximum payload, and a search of millions of frames of one seeded random stream for ids/ports at or beyond the ends of their ranges; the parse component drives flag names through the real filler (ptcpflags).",
         "level_note": "Trusted: Lean kernel; the gopacket serializer model is validated differentially on every run (byte-exact), not proved; sxfacts for the draw ranges and the flag table.",
     },
     "C18": {
